@@ -1033,7 +1033,8 @@ func (client *client) publishHandler(pub *packets.Publish) *codes.Error {
 
 	if pub.Retain {
 		if len(pub.Payload) == 0 {
-			srv.retainedDB.Remove(string(pub.TopicName))
+			// msg.Topic is the resolved topic name (pub.TopicName is empty when a topic alias is used)
+			srv.retainedDB.Remove(msg.Topic)
 		} else {
 			srv.retainedDB.AddOrReplace(msg.Copy())
 		}
